@@ -92,7 +92,16 @@ found:
 	anchor := fmt.Sprintf("mapupdate#%d", ord)
 	mt := x.Map.Type().Underlying().(*types.Map)
 	for _, at := range c.Ats {
-		if at.Anchor != anchor || at.Kind != "assert" {
+		if at.Anchor != anchor || (at.Kind != "assert" && at.Kind != "set") {
+			continue
+		}
+		if at.Kind == "set" {
+			env := e.mkEnv(s, fr, map[string]Value{"key": s.fromTerm(k, mt.Key()), "value": s.fromTerm(v, mt.Elem())}, map[string]types.Type{"key": mt.Key(), "value": mt.Elem()})
+			tv, err := e.eval(env, at.Clause.Expr)
+			if err != nil {
+				e.bail("at %s set %s: %v", anchor, at.Target, err)
+			}
+			fr.ghosts[at.Target] = tv.V
 			continue
 		}
 		vars := map[string]Value{"key": s.fromTerm(k, mt.Key()), "value": s.fromTerm(v, mt.Elem())}
@@ -104,5 +113,26 @@ found:
 		name := fmt.Sprintf("%s#assert@%s:%s", shortKey(funcKey(fr.fn)), anchor, at.Clause.Tag)
 		s.addObligation("assert", name, at.Clause.Tag, x.Pos(), t, at.Clause.Src)
 		s.assume(t)
+	}
+}
+
+// applyLoopStepAnchors: "at loopstep#n assert ..." clauses, checked at the back edge of loop n
+// (end of an arbitrary iteration; ghosts count what the iteration did).
+func (e *Engine) applyLoopStepAnchors(s *State, fr *Frame, lc *loopCtx, in ssa.Instruction) {
+	c := fr.contract
+	if c == nil || len(c.Ats) == 0 {
+		return
+	}
+	anchor := fmt.Sprintf("loopstep#%d", lc.loop.Ordinal)
+	for _, at := range c.Ats {
+		if at.Anchor != anchor || at.Kind != "assert" {
+			continue
+		}
+		t, err := e.evalClause(s, fr, at.Clause, nil, nil)
+		if err != nil {
+			e.bail("at %s assert %q: %v", anchor, at.Clause.Src, err)
+		}
+		name := fmt.Sprintf("%s#assert@%s:%s", shortKey(funcKey(fr.fn)), anchor, at.Clause.Tag)
+		s.addObligation("assert", name, at.Clause.Tag, in.Pos(), t, at.Clause.Src)
 	}
 }
